@@ -433,7 +433,17 @@ def _run(case, cfg, w):
         n_err = len(rec.errors)
         if kind == 'handler_raises_cb':
             # a valid callback message for a local callback that raises
-            if is_async and r % 2:
+            if is_async and r % 3 == 2:
+                # a plain callable that hands back a coroutine (the "bind
+                # some arguments" idiom) which ends cancelled
+                async def _cancelled(*a):
+                    import asyncio
+                    rec.count('fault.handler_raise.callback_cancelled')
+                    raise asyncio.CancelledError()
+
+                def bad_cb(*a):
+                    return _cancelled(*a)
+            elif is_async and r % 3 == 1:
                 async def bad_cb(*a):
                     # e.g. the callback awaited something the application
                     # cancelled: the listener itself was not cancelled
@@ -447,8 +457,10 @@ def _run(case, cfg, w):
             n_log = len(bus.log)
             w.api('h0', 'emit', 'q', 'c%d' % i, to=sent_sid, callback=bad_cb)
             w.settle()
-            ids = sorted(k for k in hosts[0].manager.callbacks.get(
-                sent_sid, {}) if isinstance(k, int))
+            # the id under which the application's callback itself waits (the
+            # manager also keeps a forwarding entry for the local client)
+            ids = sorted(k for k, f in hosts[0].manager.callbacks.get(
+                sent_sid, {}).items() if isinstance(k, int) and f is bad_cb)
             if ids:
                 bus.inject(pickle.dumps({
                     'method': 'callback',
@@ -473,8 +485,8 @@ def _run(case, cfg, w):
             w.api('h0', 'emit', 'q', 'c%d' % i, to=sent_sid,
                   callback=chain_cb)
             w.settle()
-            ids = sorted(k for k in hosts[0].manager.callbacks.get(
-                sent_sid, {}) if isinstance(k, int))
+            ids = sorted(k for k, f in hosts[0].manager.callbacks.get(
+                sent_sid, {}).items() if isinstance(k, int) and f is chain_cb)
             if ids:
                 bus.inject(pickle.dumps({
                     'method': 'callback',
